@@ -49,6 +49,11 @@ func NewIpnEndpoint(uri string) (e EndpointType, err error) {
 	e = IpnEndpoint{node, service}
 	err = e.CheckValid()
 
+	// Only the canonical text, e.g., without leading zeros, represents this endpoint.
+	if err == nil && e.String() != uri {
+		err = fmt.Errorf("uri is not the canonical representation %s", e.String())
+	}
+
 	return
 }
 
